@@ -351,7 +351,7 @@ func (m *Machine) portfolioCheck(extra *smt.Term) (smt.Result, []InputVal) {
 }
 
 func (m *Machine) inputsFromModel(mod *smt.Model) []InputVal {
-	var out []InputVal
+	out := []InputVal{}
 	for _, in := range m.inputs {
 		iv := InputVal{Name: in.name, Kind: in.kind}
 		if in.term == nil {
